@@ -293,6 +293,67 @@ let cookie_case (toks : string list) : string =
        "J ok" ^ l ^ " | post" ^ l)
   | _ -> "BADCASE"
 
+(* ---------------- typed headers (C16) ---------------- *)
+
+let str_of_bytes (b : M.ascii list) : string = String.concat "" (List.map (fun a -> String.make 1 (Char.chr (int_of_ascii a))) b)
+
+let z_of_int (i : int) : M.z = if i = 0 then M.Z0 else if i > 0 then M.Zpos (pos_of_int i) else M.Zneg (pos_of_int (-i))
+
+let cc_list (ds : (M.n * M.z) list) : string =
+  if ds = [] then "-" else
+    String.concat "," (List.map (fun (i, d) -> let i = int_of_n i in if i >= 8 then Printf.sprintf "%d:%s" i (decimal_of_z d) else string_of_int i) ds)
+
+let header_case (toks : string list) : string =
+  match toks with
+  | [ "T"; name; value ] ->
+    let nm = String.lowercase_ascii (str_of_bytes (bytes_of_hex name)) in
+    let v = bytes_of_hex value in
+    let twice parse write =
+      match parse v with
+      | None -> "T err"
+      | Some h -> let w1 = write h in
+        (match parse w1 with
+         | None -> "T err2 " ^ hex_of_bytes w1
+         | Some h2 -> "T ok " ^ hex_of_bytes w1 ^ " " ^ hex_of_bytes (write h2)) in
+    (match nm with
+     | "connection" -> twice (fun x -> Some (M.conn_parse x)) M.conn_write
+     | "content-encoding" | "transfer-encoding" -> twice (fun x -> Some (M.enc_parse x)) M.enc_write
+     | "expect" -> twice (fun x -> Some (M.expect_parse x)) M.expect_write
+     | "cache-control" -> twice M.cc_parse_top M.cc_write
+     | "host" -> twice M.host_parse M.host_write
+     | "location" | "server" | "user-agent" | "authorization" | "access-control-allow-origin" | "access-control-allow-headers"
+     | "access-control-expose-headers" | "access-control-allow-methods" -> twice (fun x -> Some x) (fun x -> x)
+     | _ -> "IMPL-ONLY")
+  | "CC" :: ds ->
+    let ds = List.map (fun x -> match String.split_on_char ':' x with
+        | [ i; d ] -> (n_of_int (int_of_string i), (match n_of_decimal d with M.N0 -> M.Z0 | M.Npos p -> M.Zpos p))
+        | _ -> (n_of_int (int_of_string x), M.Z0)) ds in
+    let w = M.cc_write ds in
+    (match M.cc_parse_top w with
+     | None -> "CC " ^ hex_of_bytes w ^ " err"
+     | Some back -> Printf.sprintf "CC %s %s %s" (hex_of_bytes w) (cc_list back) (hex_of_bytes (M.cc_write back)))
+  | [ "CL"; n ] ->
+    let w = M.cl_write (n_of_decimal n) in
+    Printf.sprintf "CL %s %s" (str_of_bytes w) (decimal_of_n (M.cl_parse w))
+  | [ "EN"; _; i ] -> let w = M.enc_write (n_of_int (int_of_string i)) in Printf.sprintf "EN %s %d" (hex_of_bytes w) (int_of_n (M.enc_parse w))
+  | [ "CN"; i ] -> let w = M.conn_write (n_of_int (int_of_string i)) in Printf.sprintf "CN %s %d" (hex_of_bytes w) (int_of_n (M.conn_parse w))
+  | [ "EX"; i ] -> let w = M.expect_write (n_of_int (int_of_string i)) in Printf.sprintf "EX %s %d" (hex_of_bytes w) (int_of_n (M.expect_parse w))
+  | [ "HO"; h; p ] ->
+    let w = M.host_write (bytes_of_hex h, n_of_int (int_of_string p)) in
+    (match M.host_parse w with
+     | None -> "HO " ^ hex_of_bytes w ^ " err"
+     | Some (h2, p2) -> Printf.sprintf "HO %s %s %s" (hex_of_bytes w) (hex_of_bytes h2) (decimal_of_n p2))
+  | "SV" :: _ -> "IMPL-ONLY"
+  | "L" :: msg :: names ->
+    let st = M.feed_raw M.pstate_init (bytes_of_hex msg) in
+    (match M.parse_inst M.KRequest st with
+     | (M.PDone, st2) ->
+       "L" ^ String.concat "" (List.map (fun nmh ->
+           match M.hdr_lookup st2.M.p_msg.M.m_raw (bytes_of_hex nmh) with
+           | Some v -> " S" ^ hex_of_bytes v | None -> " N") names)
+     | _ -> "L notdone")
+  | _ -> "BADCASE"
+
 let () =
   let area = Sys.argv.(1) in
   let f = match area with
@@ -305,6 +366,7 @@ let () =
     | "net" -> net_case
     | "mime" -> mime_case
     | "cookie" -> cookie_case
+    | "headers" -> header_case
     | _ -> failwith ("unknown area " ^ area) in
   try
     while true do
